@@ -105,6 +105,7 @@ type ContractSet struct {
 	Standins  []Standin
 	Locks     []LockDiscipline
 	Unopaque  []Unopaque
+	InsertOnly map[string]bool // `insertonly pkg.Type.field`: a shared map whose entries are only ever added, never replaced
 	Sweeps    map[string]string // `sweep Cxx safety`: the check of Cxx also discharges the safety obligations of every contract listed under other properties
 	PureFns   map[string]bool // `purefn pkg.Type.Field`: a func-typed field holding pure functions (deterministic in their arguments, no effect)
 	KeyTypes  []string // struct types used as map keys: values are terms of an uninterpreted sort built by an injective constructor
@@ -351,6 +352,18 @@ func (cs *ContractSet) loadContractText(path string, pkgPath string, text string
 				continue
 			}
 			cs.KeyTypes = append(cs.KeyTypes, fields[1])
+			cur = nil
+			lastText = nil
+			continue
+		case "insertonly":
+			if len(fields) != 2 {
+				errf(i, "insertonly pkg.Type.field")
+				continue
+			}
+			if cs.InsertOnly == nil {
+				cs.InsertOnly = map[string]bool{}
+			}
+			cs.InsertOnly[fields[1]] = true
 			cur = nil
 			lastText = nil
 			continue
